@@ -36,7 +36,7 @@ def oracle_stress(case, recs):
 def parse_case_line(line):
     secs = [s.strip() for s in line.split(";")]
     params = dict(kv.split("=") for kv in secs[0].split()[1:])
-    if params["impl"].endswith("_stress"): return mk_stress(params["impl"], int(params["N"]), int(params.get("T", 4)), int(params.get("ops", 3000)), int(params.get("seed", 1)))
+    if "_stress" in params["impl"]: return mk_stress(params["impl"], int(params["N"]), int(params.get("T", 4)), int(params.get("ops", 3000)), int(params.get("seed", 1)))
     progs, sched = [], []
     for sec in secs[1:]:
         if sec.startswith("S ") or sec == "S": sched = [int(x) for x in sec[1:].split()]
